@@ -80,6 +80,8 @@ def run_one(pid, m):
             return (pid, m["name"], "NOCOMPILE", out[out.index("FATAL"):][:300])
         exp = m.get("expect", "")
         if exp == "":
+            if r.returncode != 0 and m.get("limit"):
+                return (pid, m["name"], "KNOWN-LIMIT", m["limit"][:200])
             return (pid, m["name"], "OK-SILENT" if r.returncode == 0 else "FALSE-ALARM", "; ".join(fired)[:400])
         hit = [l for l in fired if ("rule=" + exp) in l]
         if hit:
@@ -110,12 +112,24 @@ def main():
             continue
         if os.path.exists(os.path.join(d, "patch.diff")):
             jobs.append((pid, {"name": "seeded " + os.path.basename(d), "patch": os.path.relpath(os.path.join(d, "patch.diff"), VERIF), "expect": pid + "."}))
+    # behaviour-preserving refactorings written by independent agents (benign/<ID>-<n>.diff) must stay silent;
+    # those listed in benign/KNOWN-LIMITS.json are shapes the rules do not recognise (documented in DESIGN.md)
+    limits = {}
+    lp = os.path.join(VERIF, "benign", "KNOWN-LIMITS.json")
+    if os.path.exists(lp):
+        limits = json.load(open(lp))
+    for d in sorted(glob.glob(os.path.join(VERIF, "benign", "C*-*.diff"))):
+        name = os.path.basename(d)[:-5]
+        pid = name.split("-")[0]
+        if a.p and pid != a.p:
+            continue
+        jobs.append((pid, {"name": "benign refactor " + name, "patch": os.path.relpath(d, VERIF), "expect": "", "limit": limits.get(name, "")}))
     bad = 0
     with ThreadPoolExecutor(a.j) as ex:
         for pid, name, st, info in ex.map(lambda j: run_one(*j), jobs):
             if st in ("MISSED", "FALSE-ALARM", "STALE", "NOCOMPILE"):
                 bad += 1
-            print("%-4s %-12s %-45s %s" % (pid, st, name, info if (a.v or st not in ("FLAGGED", "OK-SILENT")) else ""))
+            print("%-4s %-12s %-45s %s" % (pid, st, name, info if (a.v or st not in ("FLAGGED", "OK-SILENT", "KNOWN-LIMIT")) else ""))
     print("mutants=%d attention=%d" % (len(jobs), bad))
 
 if __name__ == "__main__":
